@@ -70,7 +70,7 @@ class C25(Check):
         "names with Makefile-special characters are outside the domain (the reference linker does not escape them either)",
         "different spellings of one file that were each opened may each be listed; only identical prerequisite strings count as 'twice'",
     ]
-    quick_cases = 320
+    quick_cases = 240
     thorough_cases = 8000
 
     def strategy(self, tier):
